@@ -21,15 +21,15 @@ def acceptedTexts : List Op → List Out → List SrcFile
   | _, _ => []
 
 /-- The good texts of a history run on a fresh set. -/
-def goodTexts (plug : Plug) (opts : Opts) (h : List Op) : List SrcFile :=
+def goodTexts (plug : Registry → Plug) (opts : Opts) (h : List Op) : List SrcFile :=
   acceptedTexts h (run plug opts h)
 
 /-- What the batch run of `texts` on a fresh set answers to its final `process`. -/
-def batch (plug : Plug) (opts : Opts) (texts : List SrcFile) : Option Out :=
+def batch (plug : Registry → Plug) (opts : Opts) (texts : List SrcFile) : Option Out :=
   (run plug opts (loads texts ++ [.process])).getLast?
 
 /-- Two states that no later history of loads, processing runs and reads can tell apart. -/
-def Indistinguishable (plug : Plug) (s t : Session) : Prop :=
+def Indistinguishable (plug : Registry → Plug) (s t : Session) : Prop :=
   ∀ h : List Op, (runFrom plug s h).2 = (runFrom plug t h).2
 
 end Goyang.Spec.Session
